@@ -1,6 +1,7 @@
 /-! Prototype: reference notion of isomorphism of two specification skeletons (C12):
 the greatest relation closed under "same kind, atoms of the same size, children matchable by a permutation",
 after skipping unary (equivalence) rules. -/
+-- (`perms` is kept for reference: `matchDFS` decides the same existence without enumerating permutations)
 inductive GRule where
   | atom (size : Nat)
   | union (cs : List Nat)
@@ -26,13 +27,18 @@ def perms : List Nat → List (List Nat)
 abbrev Rel := Array (Array Bool)
 def Rel.get (r : Rel) (a b : Nat) : Bool := (r.getD a #[]).getD b false
 
+/-- is there a one-to-one matching of the children `cs` with the children `avail` along `r`? (backtracking over the
+candidates of the first child; no enumeration of permutations) -/
+def matchDFS (r : Nat → Nat → Bool) : List Nat → List Nat → Bool
+  | [], avail => avail.isEmpty
+  | x :: xs, avail => avail.any (fun y => r x y && matchDFS r xs (avail.erase y))
+
 def localOk (g1 g2 : Gram) (r : Rel) (a b : Nat) : Bool :=
   let a' := resolve g1 g1.size a; let b' := resolve g2 g2.size b
   match g1.getD a' (.atom 0), g2.getD b' (.atom 0) with
   | .atom s, .atom t => s == t
   | .union c1, .union c2 | .prod c1, .prod c2 =>
-    c1.length == c2.length &&
-    (perms (List.range c1.length)).any (fun σ => (c1.zip σ).all (fun (ci : Nat × Nat) => r.get ci.1 (c2.getD ci.2 0)))
+    c1.length == c2.length && matchDFS (fun x y => r.get x y) c1 c2
   | _, _ => false
 
 def refine (g1 g2 : Gram) (r : Rel) : Rel :=
